@@ -134,6 +134,9 @@ func workspace(version int) []moduleSrc {
 	b := moduleSrc{name: "beta", files: map[string]string{
 		"beta/v1/b.proto":  "syntax = \"proto3\";\npackage beta.v1;\nimport \"acme/pet/v1/f000.proto\";\nimport \"google/protobuf/timestamp.proto\";\nmessage B { acme.pet.v1.M000 m = 1; google.protobuf.Timestamp t = 2; }\nservice BService { rpc Get(B) returns (B); }\n",
 		"beta/v1/b2.proto": "syntax = \"proto3\";\npackage beta.v1;\nimport \"beta/v1/b.proto\";\nmessage B2 { B b = 1; }\n",
+		// a custom option whose value holds a map with several entries (the order of map entries on the wire is only fixed
+		// by deterministic marshalling)
+		"beta/v1/labels.proto": "syntax = \"proto3\";\npackage beta.v1;\nimport \"google/protobuf/descriptor.proto\";\nmessage Labels { map<string, string> kv = 1; map<int32, string> byid = 2; }\nextend google.protobuf.MessageOptions { Labels labels = 50777; }\nmessage Labelled {\n  option (labels) = { kv: [{key: \"a\", value: \"1\"}, {key: \"b\", value: \"2\"}, {key: \"c\", value: \"3\"}, {key: \"d\", value: \"4\"}, {key: \"e\", value: \"5\"}], byid: [{key: 3, value: \"x\"}, {key: 1, value: \"y\"}, {key: 2, value: \"z\"}] };\n  string id = 1;\n}\n",
 	}}
 	mods = append(mods, b)
 	// packages that import each other along two routes (pa -> pb -> pa and pa -> pb -> pc -> pa; the files form a DAG)
@@ -363,6 +366,29 @@ func operations() []operation {
 				return nil, err
 			}
 			return bufx.MarshalImage(out)
+		}},
+		{"build-errors", func(ctx context.Context, env Env) ([]byte, error) {
+			// a workspace that does not compile in many places (8 files with 30 unknown types each): the diagnostics are
+			// the same set in the same order whatever order the compiler found them in
+			files := map[string]string{}
+			for f := 0; f < 8; f++ {
+				var sb strings.Builder
+				sb.WriteString(fmt.Sprintf("syntax = \"proto3\";\npackage bad.v%d;\nmessage Holder%d {\n", f, f))
+				for k := 1; k <= 30; k++ {
+					sb.WriteString(fmt.Sprintf("  Unknown%d_%d f%d = %d;\n", f, k, k, k))
+				}
+				sb.WriteString("}\n")
+				files[fmt.Sprintf("bad/v%d/bad%d.proto", f, f)] = sb.String()
+			}
+			b, err := bufx.Bucket(files)
+			if err != nil {
+				return nil, err
+			}
+			_, err = bufx.BuildImageForBucket(ctx, perturbBucket(b, env))
+			if err == nil {
+				return nil, errors.New("a workspace with unknown types compiled")
+			}
+			return annotationBytes(err)
 		}},
 		{"image-paths", func(ctx context.Context, env Env) ([]byte, error) {
 			// an image used as input with --path values (files and a directory) listed in any order
